@@ -5,7 +5,8 @@ From Coq Require Import List.
 From Coq.Strings Require Import Byte.
 From GI Require Import Lib.Bytes Gen.TxtarConsts Txtar.Txtar Txtar.TxtarFacts Txtar.QuoteFacts
   Txtar.TxtarIndex Txtar.TxtarIndexFacts Txtar.TxtarHolds Txtar.TxtarHoldsFacts
-  Lib.Utf8 Lib.Utf8Facts Lib.Utf8EncodeFacts Txtar.QuoteIndex Txtar.QuoteIndexFacts Lib.Utf8Go Lib.Utf8GoFacts.
+  Lib.Utf8 Lib.Utf8Facts Lib.Utf8EncodeFacts Txtar.QuoteIndex Txtar.QuoteIndexFacts Lib.Utf8Go Lib.Utf8GoFacts
+  Lib.GoSem Gen.TxtarSrc Txtar.SrcFacts.
 Import ListNotations.
 
 Theorem C14_needs_quote_exact : forall d,
@@ -97,3 +98,35 @@ Theorem C14_decode_rune_tab_eq : forall p,
   decode_rune_tab p = match decode_rune p with Some (r, w) => DOk r w | None => DEmpty end.
 Proof. exact decode_rune_tab_eq. Qed.
 Print Assumptions C14_decode_rune_tab_eq.
+
+(* ---- NeedsQuote, Quote, Unquote as TRANSLATED from the Go source text on every run (Gen/TxtarSrc.v,
+   made by harness/go2coq in the vocabulary of Lib/GoSem.v), proved equal on every input to the
+   statement-level models and hence to needs_quote / quote / unquote.  An ([]byte, error) result is
+   the pair (bytes, is-error): err_pair (Some q) = (q, false), err_pair None = ([], true). ---- *)
+
+Theorem C14_source_needs_quote_eq : forall fuel d,
+  length d + 1 <= fuel -> src_NeedsQuote fuel d = Ok (needs_quote d).
+Proof. exact src_NeedsQuote_eq. Qed.
+Print Assumptions C14_source_needs_quote_eq.
+
+Theorem C14_source_quote_eq : forall d, src_Quote d = Ok (err_pair (quote d)).
+Proof. exact src_Quote_eq. Qed.
+Print Assumptions C14_source_quote_eq.
+
+Theorem C14_source_unquote_eq : forall d, src_Unquote d = Ok (err_pair (unquote d)).
+Proof. exact src_Unquote_eq. Qed.
+Print Assumptions C14_source_unquote_eq.
+
+Theorem C14_source_quote_idx_eq : forall d,
+  src_Quote d = match quote_idx d with Ok o => Ok (err_pair o) | Panic => Panic | OutOfFuel => OutOfFuel end.
+Proof. exact src_Quote_idx_eq. Qed.
+Print Assumptions C14_source_quote_idx_eq.
+
+Theorem C14_source_unquote_idx_eq : forall d,
+  src_Unquote d = match unquote_idx d with Ok o => Ok (err_pair o) | Panic => Panic | OutOfFuel => OutOfFuel end.
+Proof. exact src_Unquote_idx_eq. Qed.
+Print Assumptions C14_source_unquote_idx_eq.
+
+Theorem C14_source_unquote_quote : forall d q, src_Quote d = Ok (q, false) -> src_Unquote q = Ok (d, false).
+Proof. exact src_Unquote_Quote. Qed.
+Print Assumptions C14_source_unquote_quote.
